@@ -39,7 +39,7 @@ OPTS = {}
 
 
 def plan(tier):
-    return 700 if tier == "quick" else 16000
+    return 1200 if tier == "quick" else 16000
 
 
 def budget(tier):
